@@ -139,3 +139,238 @@ Proof.
     + replace (Z.of_nat (S (length xs')) - 1) with (Z.of_nat (length xs')) by lia. exact H1.
     + rewrite lit_true_pos by lia. exact H2.
 Qed.
+
+(** * Population count *)
+
+(** Width of the partial counts at level [lvl] (groups of [2^lvl] inputs). *)
+Definition wd (sa lvl : nat) : nat :=
+  match sa with O => S lvl | _ => Nat.min (S lvl) sa end.
+
+(** [b] (MSB first) holds the saturated count [N] of a group of [2^lvl] inputs. *)
+Definition Rep (sa lvl : nat) (s : asg) (b : list Z) (N : Z) : Prop :=
+  msbv (lits s b) = satv sa N /\ 0 <= N <= 2 ^ Z.of_nat lvl.
+
+Definition pair_add (x y : list Z) (sa : nat) : M (option (list Z)) :=
+  if Nat.eqb sa 0 then
+    cs <- ripple_carry x y ;;
+    match fst cs with
+    | Some c => ret (Some (c :: rev (snd cs)))
+    | None => ret None
+    end
+  else ripple_saturate x y sa.
+
+Definition pair_add_post (n : Z) (x y : list Z) (sa lvl : nat)
+  (o : option (list Z)) (n' : Z) (new : cnf) : Prop :=
+  exists out, o = Some out /\ length out = wd sa (S lvl) /\
+    Forall (fresh_in n n') out /\
+    forall s, sat s new = true -> forall Nx Ny,
+      Rep sa lvl s x Nx -> Rep sa lvl s y Ny -> Rep sa (S lvl) s out (Nx + Ny).
+
+Lemma pow2_le_mono (a b : nat) : (a <= b)%nat -> 2 ^ Z.of_nat a <= 2 ^ Z.of_nat b.
+Proof. intros H. apply Z.pow_le_mono_r; lia. Qed.
+
+Lemma pair_add_spec n x y sa lvl :
+  0 <= n -> length x = wd sa lvl -> length y = wd sa lvl ->
+  Forall (inr n) x -> Forall (inr n) y ->
+  Spec (pair_add x y sa) n (pair_add_post n x y sa lvl).
+Proof.
+  intros Hn Hlx Hly Hx Hy. unfold pair_add, pair_add_post.
+  destruct sa as [|m].
+  - (* no saturation: ripple_carry *)
+    cbn [Nat.eqb wd] in *.
+    eapply spec_bind; [apply ripple_carry_spec; try assumption; lia|].
+    intros [co sums] n1 new1 Hle (Hn1 & Hls & Hfr & Hco & Hsem). cbn [fst snd] in *.
+    destruct x as [|x0 x']; [discriminate|].
+    destruct Hco as (c & -> & Hc).
+    apply spec_ret; [lia|].
+    exists (c :: rev sums). split; [reflexivity|].
+    split; [cbn [length]; rewrite rev_length; lia|].
+    split; [constructor; [assumption|now apply Forall_rev]|].
+    intros s Hs Nx Ny [Hx1 Hx2] [Hy1 Hy2]. rewrite app_nil_r in Hs.
+    specialize (Hsem s Hs). cbn [satv] in *. split.
+    + cbn [lits map]. rewrite msbv_cons. fold (lits s (rev sums)).
+      rewrite lits_rev, msbv_rev, rev_length, lits_length, Hls.
+      cbn [olit] in Hsem. cbn [satv]. lia.
+    + rewrite pow2_S. lia.
+  - cbn [Nat.eqb].
+    assert (Hw : (0 < length x <= S m)%nat).
+    { rewrite Hlx. cbn [wd]. lia. }
+    eapply spec_conseq; [apply ripple_saturate_spec; try assumption; lia|].
+    intros o n1 new1 Hle (out & -> & Hfr & Hcase).
+    exists out. split; [reflexivity|].
+    destruct (length x <? S m)%nat eqn:E.
+    + apply Nat.ltb_lt in E. destruct Hcase as [Hlo Hsem].
+      assert (Hlvl : (S lvl < S m)%nat).
+      { rewrite Hlx in E. cbn [wd] in E. lia. }
+      split. { rewrite Hlo, Hlx. cbn [wd]. lia. }
+      split; [assumption|].
+      intros s Hs Nx Ny [Hx1 Hx2] [Hy1 Hy2].
+      pose proof (pow2_le_mono lvl m ltac:(lia)) as Hp1.
+      pose proof (pow2_le_mono (S lvl) m ltac:(lia)) as Hp2.
+      rewrite pow2_S in Hp2.
+      replace (Z.of_nat m) with (Z.of_nat (S m) - 1) in Hp1, Hp2 by lia.
+      rewrite satv_small in Hx1, Hy1 by (intros; lia).
+      split; [|rewrite pow2_S; lia].
+      rewrite (Hsem s Hs), satv_small by (intros; lia). lia.
+    + apply Nat.ltb_ge in E. destruct Hcase as [Hlo Hsem].
+      assert (Hlen : length x = S m) by lia.
+      split. { rewrite Hlo. rewrite Hlx in *. cbn [wd] in *. lia. }
+      split; [assumption|].
+      intros s Hs Nx Ny [Hx1 Hx2] [Hy1 Hy2]. split; [|rewrite pow2_S; lia].
+      destruct (Hsem s Hs) as (cr & Hlow & Htop).
+      destruct x as [|xt x']; [discriminate|]. destruct y as [|yt y']; [cbn [wd length] in *; lia|].
+      destruct out as [|ot out']; [cbn [length] in *; lia|].
+      cbn [hd tl length] in *.
+      assert (Hlx' : length x' = m) by lia.
+      assert (Hly' : length y' = m) by lia.
+      assert (Hlo' : length out' = m) by lia.
+      cbn [lits map] in Hx1, Hy1 |- *. fold (lits s x') in *. fold (lits s y') in *.
+      fold (lits s out') in *.
+      rewrite msbv_cons, lits_length in Hx1, Hy1 |- *.
+      rewrite Hlx' in Hx1. rewrite Hly' in Hy1. rewrite Hlo'.
+      replace (Z.of_nat (S (length x')) - 1) with (Z.of_nat m) in Hlow by lia.
+      pose proof (msbv_bounds (lits s x')) as Bx. rewrite lits_length, Hlx' in Bx.
+      pose proof (msbv_bounds (lits s y')) as By. rewrite lits_length, Hly' in By.
+      pose proof (msbv_bounds (lits s out')) as Bo. rewrite lits_length, Hlo' in Bo.
+      rewrite Htop.
+      apply (satv_add_full m Nx Ny (msbv (lits s x')) (msbv (lits s y'))); try assumption; lia.
+Qed.
+
+Definition sumZ (l : list Z) : Z := fold_right Z.add 0 l.
+
+Lemma sumZ_cons x a : sumZ (x :: a) = x + sumZ a.
+Proof. reflexivity. Qed.
+
+Lemma sumZ_nil : sumZ [] = 0.
+Proof. reflexivity. Qed.
+
+Lemma sumZ_app a b : sumZ (a ++ b) = sumZ a + sumZ b.
+Proof. unfold sumZ. induction a as [|x a IH]; cbn [app fold_right] in *; lia. Qed.
+
+Lemma sumZ_rev a : sumZ (rev a) = sumZ a.
+Proof.
+  induction a as [|x a IH]; [reflexivity|].
+  cbn [rev]. rewrite sumZ_app, IH, !sumZ_cons, sumZ_nil. lia.
+Qed.
+
+Lemma Forall2_rev {A B} (R : A -> B -> Prop) l l' :
+  Forall2 R l l' -> Forall2 R (rev l) (rev l').
+Proof.
+  induction 1 as [|x y l l' Hxy _ IH]; [constructor|].
+  cbn [rev]. apply Forall2_app; [assumption|]. now repeat constructor.
+Qed.
+
+Definition wf_bits (n : Z) (sa lvl : nat) (bits : list (list Z)) : Prop :=
+  Forall (fun b => length b = wd sa lvl /\ Forall (inr n) b) bits.
+
+Lemma wf_bits_le n m sa lvl bits : n <= m -> wf_bits n sa lvl bits -> wf_bits m sa lvl bits.
+Proof.
+  intros H. apply Forall_impl. intros b [H1 H2]. split; [assumption|].
+  now apply (Forall_inr_le n).
+Qed.
+
+Definition layer_post (n : Z) (l r : list (list Z)) (sa lvl : nat)
+  (o : option (list (list Z))) (n' : Z) (new : cnf) : Prop :=
+  exists vl, o = Some vl /\ length vl = length l /\ wf_bits n' sa (S lvl) vl /\
+    forall s, sat s new = true -> forall Nl Nr,
+      Forall2 (Rep sa lvl s) l Nl -> Forall2 (Rep sa lvl s) r Nr ->
+      exists Ns, Forall2 (Rep sa (S lvl) s) vl Ns /\ sumZ Ns = sumZ Nl + sumZ Nr.
+
+Lemma layer_pairs_spec sa lvl l : forall r n,
+  0 <= n -> length l = length r -> wf_bits n sa lvl l -> wf_bits n sa lvl r ->
+  Spec (layer_pairs l r sa) n (layer_post n l r sa lvl).
+Proof.
+  induction l as [|x l IH]; intros r n Hn Hlen Hl Hr.
+  - cbn [layer_pairs]. apply spec_ret; [assumption|].
+    exists []. split; [reflexivity|]. split; [reflexivity|]. split; [constructor|].
+    intros s _ Nl Nr HNl HNr. inversion HNl; subst. destruct r; [|discriminate].
+    inversion HNr; subst. exists []. split; [constructor|reflexivity].
+  - destruct r as [|y r]; [discriminate|]. cbn [length] in Hlen.
+    inversion Hl as [|? ? [Hx1 Hx2] Hl']; subst. inversion Hr as [|? ? [Hy1 Hy2] Hr']; subst.
+    cbn [layer_pairs]. fold (pair_add x y sa).
+    eapply spec_bind; [apply (pair_add_spec n x y sa lvl); assumption|].
+    intros o n1 new1 Hle (out & -> & Hlo & Hfo & Hsem1).
+    eapply spec_bind.
+    { apply (IH r n1); [lia|lia| |]; apply (wf_bits_le n); assumption || lia. }
+    intros o2 n2 new2 Hle2 (vl & -> & Hlv & Hwv & Hsem2).
+    apply spec_ret; [lia|].
+    exists (out :: vl). split; [reflexivity|]. split; [cbn [length]; lia|].
+    split.
+    { constructor; [|assumption]. split; [assumption|].
+      apply (Forall_inr_le n1); [lia|]. apply (Forall_fresh_inr n); assumption. }
+    intros s Hs Nl Nr HNl HNr. rewrite app_nil_r in Hs.
+    rewrite sat_app, andb_true_iff in Hs. destruct Hs as [Hs1 Hs2].
+    inversion HNl as [|? Nx ? Nl' HRx HNl']; subst.
+    inversion HNr as [|? Ny ? Nr' HRy HNr']; subst.
+    destruct (Hsem2 s Hs2 Nl' Nr' HNl' HNr') as (Ns & HNs & Hsum).
+    exists ((Nx + Ny) :: Ns). split.
+    + constructor; [|assumption]. now apply (Hsem1 s Hs1).
+    + rewrite !sumZ_cons. lia.
+Qed.
+
+Lemma pop_layer_step f bits sa :
+  (2 <= length bits)%nat ->
+  pop_layer (S f) bits sa
+  = (o <- layer_pairs (firstn (Nat.div (length bits) 2) bits)
+                      (skipn (Nat.div (length bits) 2) bits) sa ;;
+     match o with
+     | Some vl => pop_layer f (rev vl) sa
+     | None => ret None
+     end).
+Proof.
+  intros H. destruct bits as [|b1 [|b2 rest]]; cbn [length] in H; try lia. reflexivity.
+Qed.
+
+Lemma pow2_nat_pos j : (0 < 2 ^ j)%nat.
+Proof. induction j; cbn [Nat.pow]; lia. Qed.
+
+Definition pop_layer_post (sa lvl j : nat) (bits : list (list Z))
+  (o : option (list Z)) (n' : Z) (new : cnf) : Prop :=
+  exists out, o = Some out /\ length out = wd sa (lvl + j) /\ Forall (inr n') out /\
+    forall s, sat s new = true -> forall Ns,
+      Forall2 (Rep sa lvl s) bits Ns -> Rep sa (lvl + j) s out (sumZ Ns).
+
+Lemma pop_layer_spec sa j : forall fuel bits n lvl,
+  0 <= n -> (j < fuel)%nat -> length bits = (2 ^ j)%nat -> wf_bits n sa lvl bits ->
+  Spec (pop_layer fuel bits sa) n (pop_layer_post sa lvl j bits).
+Proof.
+  induction j as [|j IH]; intros fuel bits n lvl Hn Hf Hlen Hwf.
+  - destruct fuel as [|f]; [lia|].
+    destruct bits as [|b [|b2 rest]]; try discriminate.
+    cbn [pop_layer]. apply spec_ret; [assumption|].
+    inversion Hwf as [|? ? [Hb1 Hb2] _]; subst.
+    exists b. split; [reflexivity|]. rewrite Nat.add_0_r.
+    split; [assumption|]. split; [assumption|].
+    intros s _ Ns HNs. inversion HNs as [|? N ? ? HR HNs']; subst. inversion HNs'; subst.
+    rewrite sumZ_cons, sumZ_nil. now rewrite Z.add_0_r.
+  - destruct fuel as [|f]; [lia|].
+    pose proof (pow2_nat_pos j) as Hp.
+    assert (Hlen2 : length bits = (2 ^ j + 2 ^ j)%nat).
+    { rewrite Hlen. cbn [Nat.pow]. lia. }
+    rewrite pop_layer_step by lia.
+    assert (Hmid : Nat.div (length bits) 2 = (2 ^ j)%nat).
+    { rewrite Hlen2. replace (2 ^ j + 2 ^ j)%nat with (2 ^ j * 2)%nat by lia.
+      apply Nat.div_mul. lia. }
+    rewrite Hmid.
+    set (l := firstn (2 ^ j) bits). set (r := skipn (2 ^ j) bits).
+    assert (Hbits : bits = l ++ r) by (symmetry; apply firstn_skipn).
+    assert (Hll : length l = (2 ^ j)%nat) by (unfold l; rewrite firstn_length; lia).
+    assert (Hlr : length r = (2 ^ j)%nat) by (unfold r; rewrite skipn_length; lia).
+    rewrite Hbits in Hwf. apply Forall_app in Hwf. destruct Hwf as [Hwl Hwr].
+    eapply spec_bind; [apply (layer_pairs_spec sa lvl l r n); try assumption; lia|].
+    intros o n1 new1 Hle (vl & -> & Hlv & Hwv & Hsem1).
+    eapply spec_conseq.
+    { apply (IH f (rev vl) n1 (S lvl)); [lia|lia| |].
+      - rewrite rev_length. lia.
+      - apply Forall_rev. exact Hwv. }
+    intros o2 n2 new2 Hle2 (out & -> & Hlo & Hro & Hsem2).
+    exists out. split; [reflexivity|].
+    replace (lvl + S j)%nat with (S lvl + j)%nat by lia.
+    split; [assumption|]. split; [assumption|].
+    intros s Hs Ns HNs. rewrite sat_app, andb_true_iff in Hs. destruct Hs as [Hs1 Hs2].
+    rewrite Hbits in HNs. apply Forall2_app_inv_l in HNs.
+    destruct HNs as (Nl & Nr & HNl & HNr & ->).
+    destruct (Hsem1 s Hs1 Nl Nr HNl HNr) as (Ns' & HNs' & Hsum).
+    rewrite sumZ_app, <- Hsum, <- sumZ_rev.
+    apply (Hsem2 s Hs2). now apply Forall2_rev.
+Qed.
